@@ -158,6 +158,8 @@ func checkC15(p *core.Program, r *core.Report) {
 	}
 	// O15.4: a truncated file makes the loader return, not hang or panic
 	checkLoadChainTermination(p, r, li.chain, li.ps)
+	// O15.2: deferred clean-up does not replace a pending error
+	checkDeferredErrorOverwrite(p, r, li.chain)
 	// O15.3 callers
 	inChain := map[ast.Node]bool{}
 	for _, u := range li.chain {
